@@ -8,6 +8,7 @@
    for the short fixed sequence of API calls the harness issues for it):
 
      ret / panic / spanic / call      simple statements (spanic = call of a *shadowed* panic)
+     assign define incdec send defer go var   the other simple statements (not terminating)
      break[L] continue[L] goto L      jumps, generated only towards legal targets
      fgoto L                          forward goto: NewLabel + Goto now, Label later in an enclosing block
      label L                          NewLabel + Label (attaches to the next statement,
@@ -85,7 +86,9 @@ Keep == UNCHANGED <<missing, unused, dup>>
 Path == [i \in 1..(Len(open) - FnBase + 1) |-> open[FnBase + i - 1].id]
 IsPrefixOf(p, q) == Len(p) <= Len(q) /\ \A i \in 1..Len(p) : p[i] = q[i]
 
-SimpleStmt(k) == /\ k \in Simple /\ InBody /\ Room /\ Emit(Leaf(k, "")) /\ UNCHANGED <<lbl, nid>> /\ Keep /\ Log(k, "")
+\* declarations get a fresh name from the operation count (the harness appends it)
+SimpleStmt(k) == /\ k \in Simple /\ InBody /\ Room /\ Emit(Leaf(k, "")) /\ UNCHANGED <<lbl, nid>> /\ Keep
+                 /\ Log(k, IF k \in {"define", "var"} THEN ToString(nops) ELSE "")
 Break(l) == /\ "break" \in Jumps /\ InBody /\ Room
             /\ (IF l = "" THEN InBreakable ELSE EnclosingLabel(l, Breakables))
             /\ Emit(Leaf("break", l)) /\ (IF l = "" THEN UNCHANGED lbl ELSE SetLbl([CurLbl EXCEPT ![l].used = TRUE]))
@@ -155,8 +158,10 @@ Close ==
 LegalFallthrough ==
   \A i \in 1..Len(open) : open[i].k = "case" =>
      \A j \in 1..Len(open[i].items) : open[i].items[j].k = "fallthrough" => j = Len(open[i].items)
+\* further simple statements (none of them terminating): x = 1, y := 1 (used at once), x++, ch <- 1, defer g0(), go g0(), var z int
+MoreSimple == {"assign", "define", "incdec", "send", "defer", "go", "var"}
 Next == /\ nops < MaxOps
-        /\ \/ \E k \in {"ret", "panic", "spanic", "call"} : SimpleStmt(k)
+        /\ \/ \E k \in {"ret", "panic", "spanic", "call"} \cup MoreSimple : SimpleStmt(k)
            \/ \E l \in Labels \cup {""} : Break(l) \/ Continue(l)
            \/ \E l \in Labels : Goto(l) \/ Label(l) \/ FGoto(l)
            \/ Fallthrough \/ Else \/ Close \/ OpenClosure
